@@ -23,6 +23,7 @@ RULE = (
     "key a write exists and the last written value is not superseded (no other send to that key was invoked after the send of that value "
     "completed); every written value was sent; no value is written more often than sent; all tasks finish without error. Non-trivial = some "
     "schedule had a send to node 1 complete while a flush write was blocked; distinct = distinct configuration."
+    ' Round 5: senders may set the ack flag.'
 )
 ASSUMPTIONS = [
     "suspension points of send/flush are transport writes (plus whatever the loop needs to settle: a schedule step waits until six loop iterations pass without progress)",
